@@ -61,6 +61,16 @@ def _design(consts, label, workers, timeout=2400):
     return res, label
 
 
+IMPL_INVS = ["Serial", "NotEarly", "RunOnce", "Fifo", "NoLoss"]
+
+
+def _impl(consts, label, workers, liveness, timeout=2400):
+    """PlusCal lock-granularity model of Trampoline.run/_run (TrampolineImpl.tla): design assurance only."""
+    cfg = tlc.cfg_text(dict(consts, defaultInitValue=0), spec="Spec", invariants=IMPL_INVS, properties=["AllReturn"] if liveness else [])
+    res = tlc.run("TrampolineImpl", cfg, workers=workers, timeout=timeout, allow_violation=True, coverage=True, xmx="3g")
+    return res, label
+
+
 def _solo_job(args):
     return tc.judge_solo(args)
 
@@ -98,6 +108,11 @@ def run(tier: str) -> int:
             f_mixed = tp.submit(_export, MIXED_Q if quick else MIXED_T, "export one thread, mixed schedulers")
             f_design = tp.submit(_design, DESIGN_Q if quick else DESIGN_T, "design: all interleavings, 2 threads, free clock", 3 if quick else 4)
             f_gen = tp.submit(_export, CONC_GEN, "generate 2-thread programs", f"num={20 if quick else 400}", ck.seed + 11)
+            impl_c = dict(Threads={1, 2}, NTop=1, Nest=True, Delays={0} if quick else {0, 1}, MaxClock=1)
+            f_impl_fixed = tp.submit(_impl, dict(impl_c, Fixed=True), "lock-granularity model, repaired algorithm, 2 threads", 2, True)
+            f_impl_asis = tp.submit(_impl, dict(impl_c, Fixed=False), "lock-granularity model, algorithm of the pinned tree, 2 threads", 2, False)
+            f_impl3 = None if quick else tp.submit(_impl, dict(impl_c, Threads={1, 2, 3}, Nest=False, Fixed=True),
+                                                   "lock-granularity model, repaired algorithm, 3 threads", 4, True)
             f_gen3 = None if quick else tp.submit(_export, CONC_GEN3, "generate 3-thread programs", "num=150", ck.seed + 12)
             f_sims = [] if quick else [tp.submit(_export, SOLO_SIM, "simulate deeper one-thread programs", "num=20000", ck.seed + 7),
                                        tp.submit(_export, MIXED_SIM, "simulate deeper mixed-scheduler programs", "num=10000", ck.seed + 8)]
@@ -137,7 +152,7 @@ def run(tier: str) -> int:
             rnd.shuffle(strict)
             a_cross = pool.map_async(_solo_trace_job, [(s, k) for s, _, k in strict[: (60 if quick else 1500)]], chunksize=50)
 
-            for fails in a_strict.get():
+            for fails in a_strict.get(timeout=1200 if quick else 10800):
                 for f in fails:
                     ck.fail(f)
             ck.impl += sum(len(k) for _, _, k in strict)
@@ -154,7 +169,7 @@ def run(tier: str) -> int:
             conc_items = []
             n_exec = 0
             both = 0
-            for job, r in zip(jobs, a_conc.get()):
+            for job, r in zip(jobs, a_conc.get(timeout=1200 if quick else 10800)):   # a real (non-cooperative) block is a machinery failure
                 n_exec += r["stats"]["executions"]
                 for k in ("deadlocks", "steplimit", "thread_exc"):
                     ck.count("conc_" + k, r["stats"][k])
@@ -186,6 +201,25 @@ def run(tier: str) -> int:
             res, label = f_design.result()
             ck.add_tlc(res, label)
             ck.note("design_coverage", {k: v for k, v in res.coverage.items() if k in DESIGN_NEED})
+            # ---- lock-granularity design model (PlusCal): which variant of the algorithm is safe
+            for f in [f_impl_fixed] + ([f_impl3] if f_impl3 else []):
+                res, label = f.result()
+                ck.add_tlc(res, label)
+                if not res.ok:
+                    raise tlc.TLCFailure(f"{label}: violates {res.violated}")
+                dead = [a for a in ("r_enq", "r_branch", "r_drain", "d_collect", "d_invoke", "d_end", "d_check") if res.coverage.get(a, 0) == 0]
+                if dead:
+                    raise tlc.TLCFailure(f"{label}: labels never reached {dead}")
+            res, label = f_impl_asis.result()
+            ck.add_tlc(res, label)
+            ck.note("lock_granularity_model_of_pinned_algorithm", "violates " + str(res.violated) if not res.ok else "holds")
+            lost = ck.known_hits.get("C30-shared-trampoline-lost-action", 0) + sum(
+                1 for v in ck.violations if v.get("failure") in ("returned_with_work_pending", "lost_action"))
+            ck.note("lock_granularity_variant_matching_the_observed_executions",
+                    "pinned algorithm (Fixed=FALSE): an execution of the real code lost an action" if lost else
+                    "repaired algorithm (Fixed=TRUE): no execution of the real code lost an action")
+            if lost and res.ok:
+                ck.drift("the real code lost an action but TrampolineImpl(Fixed=FALSE) does not: the design model no longer describes the code")
     finally:
         pool.terminate()
         pool.join()
